@@ -46,7 +46,8 @@ EXPLANATION = (
     "repeated slashes, leading slashes, directory slash) is evaluated on the matcher's "
     "compared value and on the static handler's served path; they must agree. (A7) "
     "request_client_cert covers every rule with require_cert or an allow-list. TLS delivery of "
-    "the certificate is trusted."
+    "the certificate is trusted. "
+    "(A3, prefix) the rule prefix reaches CertificateAuthPathRule as a plain read of the configured key. (A6) the URL handed to middleware carries the handler's path (C19.N1-N3). (A8) the fingerprint function is sha256 over DER, untruncated and pure."
 )
 
 MW = "server.middleware"
